@@ -129,7 +129,11 @@ def gen_case(rng, size=1.0):
                     out.append(dict(cur))
                 blocks[s][c] = out
         hist["blocks"] = blocks
-    return {"kind": "c17", "contigs": contigs, "variants": variants, "samples": samples, "haps": haps, "alns": alns,
+    dups = {}
+    if rng.random() < 0.35:
+        for c in contigs:
+            dups[c] = sorted(i for i in range(len(variants[c])) if rng.random() < 0.2)
+    return {"kind": "c17", "dups": dups, "contigs": contigs, "variants": variants, "samples": samples, "haps": haps, "alns": alns,
             "read_groups": read_groups, "history": hist, "gaps": gaps, "bx_cutoff": bx_cutoff}
 
 
@@ -140,6 +144,18 @@ def write_vcf(case, path, calls):
         for i, v in enumerate(case["variants"][c]):
             recs.append({"chrom": c, "pos": v["pos"], "ref": v["ref"], "alts": [v["alt"]], "format": ["GT", "PS"],
                          "calls": [calls(s, c, i) for s in case["samples"]]})
+            if i in case.get("dups", {}).get(c, []):
+                # second record at the same position, other ALT (a split multi-allelic site): the first record's call with
+                # the haplotypes exchanged, as `bcftools norm -m-` writes a 1|2 site
+                alt2 = next(b for b in "ACGT" if b not in (v["ref"], v["alt"]))
+                dc = []
+                for s in case["samples"]:
+                    k = dict(calls(s, c, i))
+                    sep = "|" if "|" in k["GT"] else "/"
+                    a, b = k["GT"].split(sep)
+                    k["GT"] = f"{b}{sep}{a}" if sep == "|" else k["GT"]
+                    dc.append(k)
+                recs.append({"chrom": c, "pos": v["pos"], "ref": v["ref"], "alts": [alt2], "format": ["GT", "PS"], "calls": dc})
     sim.write_vcf(path, case["contigs"], case["samples"], recs, fmt_defs={"PS": PS_FMT})
 
 
